@@ -24,6 +24,7 @@ import mpmath
 import torch
 
 import common
+import bigbatch
 import lattice
 import obs_lib
 import tlc
@@ -100,6 +101,9 @@ def same_tensor(before, after):
     return before.dtype == after.dtype and before.shape == after.shape and torch.equal(before, after)
 
 
+BIG = [0]
+
+
 def bind_state(chk, S, tab, hist=None):
     """spec -> code for one state and every observable of its n"""
     n, N = S.n, S.N
@@ -154,6 +158,14 @@ def bind_state(chk, S, tab, hist=None):
         if not bad and not (abs(mpmath.mpf(mean) - want.real) <= tol):
             chk.violation("%s:%s:mean-vs-trace" % (key0, op["k"]),
                           dict(det, got=mean, expected=mpmath.nstr(want.real, 17), tolerance=mpmath.nstr(tol, 3)))
+        # a long sample list (as statistics() feeds it): row by row the value of the row's basis state
+        if not bad:
+            BIG[0] += 1
+            try:
+                bigbatch.rowwise(chk, "%s:%s:long-batch" % (key0, op["k"]), det,
+                                 lambda b: make_observable(op).apply(S.model, b), sp, out, BIG[0])
+            except Exception as ex:
+                chk.violation(key0 + ":raised:" + op["k"], dict(det, long_batch=True, raised=repr(ex)))
         # absolute=True is the pointwise absolute value
         if op["k"] in ("X", "Y", "Z"):
             chk.evaluations += 1
